@@ -298,6 +298,160 @@ theorem C07_zbl_d1 (z1 z2 r : ℝ) (hr : 0 < r) (h1 : 0 < z1) (h2 : 0 < z2) :
   generalize zblKcode = K
   ring_nf
 
+/-! ### ZBL second derivative
+
+`zbl.deriv2` is a machine-expanded expression in which the product `14.39942 * K^2` (K = the code's screening-length literal 2.13503407300877)
+appears as the separate 15-digit literal `65.6378912429954`, and `2 * 14.39942` as `28.79884`.  So `deriv2` is not exactly the derivative of
+`deriv`; it is the exact second derivative with that ONE coefficient replaced by a literal that agrees with the closed form to better than
+1e-13 relative (`C07_zbl_d2_shape`, `C07_zbl_d2_exact`, `C07_zbl_d2_kappa`). -/
+
+/-- second derivative of the four-term screened Coulomb energy `zblK K` with the coefficient of the `1/r` term (`c * K^2` in the exact
+    derivative, `c = 14.39942`) left as a parameter `c2` -/
+noncomputable def zblD2 (c2 K z1 z2 r : ℝ) : ℝ :=
+  let S := z1 ^ (23 / 100 : ℝ) + z2 ^ (23 / 100 : ℝ)
+  let e := fun B : ℝ => Real.exp (-(K * B * r * S))
+  let B1 : ℝ := 32 / 10
+  let B2 : ℝ := 9423 / 10 ^ 4
+  let B3 : ℝ := 4029 / 10 ^ 4
+  let B4 : ℝ := 2016 / 10 ^ 4
+  let C1 : ℝ := 1818 / 10 ^ 4
+  let C2 : ℝ := 5099 / 10 ^ 4
+  let C3 : ℝ := 2802 / 10 ^ 4
+  let C4 : ℝ := 2817 / 10 ^ 5
+  z1 * z2 * (c2 * S ^ 2 * (B1 ^ 2 * C1 * e B1 + B2 ^ 2 * C2 * e B2 + B3 ^ 2 * C3 * e B3 + B4 ^ 2 * C4 * e B4)
+    + 2 * (1439942 / 10 ^ 5) * (K * S) * (B1 * C1 * e B1 + B2 * C2 * e B2 + B3 * C3 * e B3 + B4 * C4 * e B4) / r
+    + 2 * (1439942 / 10 ^ 5) * (C1 * e B1 + C2 * e B2 + C3 * e B3 + C4 * e B4) / r ^ 2) / r
+
+/-- the literal the code uses for `14.39942 * K^2` -/
+noncomputable def zblC2code : ℝ := 656378912429954 / 10 ^ 13
+
+
+/-- one screened-Coulomb term and its first two derivatives (`w = K * S`) -/
+noncomputable def zT0 (c b w x : ℝ) : ℝ := c / x * Real.exp (-(b * x) * w)
+noncomputable def zT1 (c b w x : ℝ) : ℝ := c * (-(1 / x ^ 2) - b * w / x) * Real.exp (-(b * x) * w)
+noncomputable def zT2 (c b w x : ℝ) : ℝ := c * (2 / x ^ 3 + 2 * (b * w) / x ^ 2 + (b * w) ^ 2 / x) * Real.exp (-(b * x) * w)
+
+theorem zexp_deriv (b w r : ℝ) :
+    HasDerivAt (fun x : ℝ => Real.exp (-(b * x) * w)) (Real.exp (-(b * r) * w) * (-b * w)) r := by
+  have : HasDerivAt (fun x : ℝ => -(b * x) * w) (-b * w) r := by
+    have := ((hasDerivAt_id' r).const_mul b).neg.mul_const w
+    simpa using this
+  exact this.exp
+
+theorem zT0_deriv (c b w r : ℝ) (hr : r ≠ 0) : HasDerivAt (zT0 c b w) (zT1 c b w r) r := by
+  have h1 : HasDerivAt (fun x : ℝ => c / x) (-c / r ^ 2) r := by
+    have := (hasDerivAt_inv hr).const_mul c
+    simpa [div_eq_mul_inv, neg_mul, mul_neg] using this
+  have h := h1.fun_mul (zexp_deriv b w r)
+  unfold zT0 zT1
+  refine h.congr_deriv ?_
+  generalize Real.exp (-(b * r) * w) = e
+  field_simp
+  ring
+
+theorem zT1_deriv (c b w r : ℝ) (hr : r ≠ 0) : HasDerivAt (zT1 c b w) (zT2 c b w r) r := by
+  have hinv : HasDerivAt (fun x : ℝ => 1 / x) (-1 / r ^ 2) r := by
+    have := hasDerivAt_inv hr
+    simpa [div_eq_mul_inv] using this
+  have hsq : HasDerivAt (fun x : ℝ => 1 / x ^ 2) (-2 / r ^ 3) r := by
+    have := hinv.fun_mul hinv
+    have h2 : (fun x : ℝ => 1 / x ^ 2) = fun x : ℝ => 1 / x * (1 / x) := by
+      funext x; rw [pow_two, one_div, one_div, mul_inv]
+    rw [h2]
+    refine this.congr_deriv ?_
+    field_simp
+    ring
+  have hb : HasDerivAt (fun x : ℝ => b * w / x) (-(b * w) / r ^ 2) r := by
+    have := hinv.const_mul (b * w)
+    have h2 : (fun x : ℝ => b * w / x) = fun x : ℝ => b * w * (1 / x) := by
+      funext x; rw [mul_one_div]
+    rw [h2]
+    refine this.congr_deriv ?_
+    ring
+  have h := ((hsq.fun_neg.fun_sub hb).const_mul c).fun_mul (zexp_deriv b w r)
+  unfold zT1 zT2
+  refine h.congr_deriv ?_
+  generalize Real.exp (-(b * r) * w) = e
+  field_simp
+  ring
+
+/-- the code's `deriv2` is `zblD2` with the literal coefficient (all z1, z2 > 0 and r > 0; the powers `z ** 0.23` are real powers) -/
+theorem C07_zbl_d2_shape (z1 z2 r : ℝ) (hr : 0 < r) (h1 : 0 < z1) (h2 : 0 < z2) :
+    ev [z1, z2] zbl_deriv2 r = zblD2 zblC2code zblKcode z1 z2 r := by
+  simp only [ev, evalR, envOf, zbl_deriv2, zblD2, zblC2code, zblKcode, List.getD_cons_zero, List.getD_cons_succ]
+  push_cast
+  generalize z1 ^ ((23:ℝ) / 100) = p1
+  generalize z2 ^ ((23:ℝ) / 100) = p2
+  have e1 : -(213503407300877 / 100000000000000 : ℝ) * (16 / 5) * r * (p1 + p2)
+      = -(213503407300877 / 10 ^ 14 * (32 / 10) * r * (p1 + p2)) := by ring
+  have e2 : -(213503407300877 / 100000000000000 : ℝ) * (9423 / 10000) * r * (p1 + p2)
+      = -(213503407300877 / 10 ^ 14 * (9423 / 10 ^ 4) * r * (p1 + p2)) := by ring
+  have e3 : -(213503407300877 / 100000000000000 : ℝ) * (4029 / 10000) * r * (p1 + p2)
+      = -(213503407300877 / 10 ^ 14 * (4029 / 10 ^ 4) * r * (p1 + p2)) := by ring
+  have e4 : -(213503407300877 / 100000000000000 : ℝ) * (126 / 625) * r * (p1 + p2)
+      = -(213503407300877 / 10 ^ 14 * (2016 / 10 ^ 4) * r * (p1 + p2)) := by ring
+  rw [e1, e2, e3, e4]
+  generalize Real.exp (-(213503407300877 / 10 ^ 14 * (32 / 10) * r * (p1 + p2))) = x1
+  generalize Real.exp (-(213503407300877 / 10 ^ 14 * (9423 / 10 ^ 4) * r * (p1 + p2))) = x2
+  generalize Real.exp (-(213503407300877 / 10 ^ 14 * (4029 / 10 ^ 4) * r * (p1 + p2))) = x3
+  generalize Real.exp (-(213503407300877 / 10 ^ 14 * (2016 / 10 ^ 4) * r * (p1 + p2))) = x4
+  ring
+
+/-- the true derivative of the code's `deriv` is `zblD2` with the closed-form coefficient `14.39942 * K^2` -/
+theorem C07_zbl_d2_exact (z1 z2 r : ℝ) (hr : 0 < r) (h1 : 0 < z1) (h2 : 0 < z2) :
+    HasDerivAt (fun x => ev [z1, z2] zbl_deriv x) (zblD2 ((1439942 / 10 ^ 5) * zblKcode ^ 2) zblKcode z1 z2 r) r := by
+  have hS : ∃ S : ℝ, S = z1 ^ (23 / 100 : ℝ) + z2 ^ (23 / 100 : ℝ) := ⟨_, rfl⟩
+  obtain ⟨S, hSdef⟩ := hS
+  -- the first-derivative function in closed form
+  have hg : ∀ x : ℝ, 0 < x → ev [z1, z2] zbl_deriv x
+      = zT1 ((1439942 / 10 ^ 5 : ℝ) * (z1 * z2) * (1818 / 10 ^ 4)) (32 / 10) (zblKcode * S) x
+      + zT1 ((1439942 / 10 ^ 5 : ℝ) * (z1 * z2) * (5099 / 10 ^ 4)) (9423 / 10 ^ 4) (zblKcode * S) x
+      + zT1 ((1439942 / 10 ^ 5 : ℝ) * (z1 * z2) * (2802 / 10 ^ 4)) (4029 / 10 ^ 4) (zblKcode * S) x
+      + zT1 ((1439942 / 10 ^ 5 : ℝ) * (z1 * z2) * (2817 / 10 ^ 5)) (2016 / 10 ^ 4) (zblKcode * S) x := by
+    intro x hx
+    have hd := C07_zbl_d1 z1 z2 x hx h1 h2
+    have hf : zblK zblKcode z1 z2 = fun y =>
+        zT0 ((1439942 / 10 ^ 5 : ℝ) * (z1 * z2) * (1818 / 10 ^ 4)) (32 / 10) (zblKcode * S) y
+      + zT0 ((1439942 / 10 ^ 5 : ℝ) * (z1 * z2) * (5099 / 10 ^ 4)) (9423 / 10 ^ 4) (zblKcode * S) y
+      + zT0 ((1439942 / 10 ^ 5 : ℝ) * (z1 * z2) * (2802 / 10 ^ 4)) (4029 / 10 ^ 4) (zblKcode * S) y
+      + zT0 ((1439942 / 10 ^ 5 : ℝ) * (z1 * z2) * (2817 / 10 ^ 5)) (2016 / 10 ^ 4) (zblKcode * S) y := by
+      funext y
+      simp only [zblK, zT0, ← hSdef]
+      ring
+    rw [hf] at hd
+    exact hd.unique ((((zT0_deriv _ _ _ x hx.ne').fun_add (zT0_deriv _ _ _ x hx.ne')).fun_add
+      (zT0_deriv _ _ _ x hx.ne')).fun_add (zT0_deriv _ _ _ x hx.ne'))
+  have h2' := (((zT1_deriv ((1439942 / 10 ^ 5 : ℝ) * (z1 * z2) * (1818 / 10 ^ 4)) (32 / 10) (zblKcode * S) r hr.ne').fun_add
+      (zT1_deriv ((1439942 / 10 ^ 5 : ℝ) * (z1 * z2) * (5099 / 10 ^ 4)) (9423 / 10 ^ 4) (zblKcode * S) r hr.ne')).fun_add
+      (zT1_deriv ((1439942 / 10 ^ 5 : ℝ) * (z1 * z2) * (2802 / 10 ^ 4)) (4029 / 10 ^ 4) (zblKcode * S) r hr.ne')).fun_add
+      (zT1_deriv ((1439942 / 10 ^ 5 : ℝ) * (z1 * z2) * (2817 / 10 ^ 5)) (2016 / 10 ^ 4) (zblKcode * S) r hr.ne')
+  have hev : (fun x => ev [z1, z2] zbl_deriv x) =ᶠ[nhds r] fun x =>
+        zT1 ((1439942 / 10 ^ 5 : ℝ) * (z1 * z2) * (1818 / 10 ^ 4)) (32 / 10) (zblKcode * S) x
+      + zT1 ((1439942 / 10 ^ 5 : ℝ) * (z1 * z2) * (5099 / 10 ^ 4)) (9423 / 10 ^ 4) (zblKcode * S) x
+      + zT1 ((1439942 / 10 ^ 5 : ℝ) * (z1 * z2) * (2802 / 10 ^ 4)) (4029 / 10 ^ 4) (zblKcode * S) x
+      + zT1 ((1439942 / 10 ^ 5 : ℝ) * (z1 * z2) * (2817 / 10 ^ 5)) (2016 / 10 ^ 4) (zblKcode * S) x := by
+    filter_upwards [Ioi_mem_nhds hr] with x hx
+    exact hg x hx
+  refine (h2'.congr_of_eventuallyEq hev).congr_deriv ?_
+  simp only [zT2, zblD2, ← hSdef]
+  generalize zblKcode = K
+  have e : ∀ B : ℝ, -(K * B * r * S) = -(B * r) * (K * S) := by intro B; ring
+  rw [e, e, e, e]
+  generalize Real.exp (-((32 / 10 : ℝ) * r) * (K * S)) = x1
+  generalize Real.exp (-((9423 / 10 ^ 4 : ℝ) * r) * (K * S)) = x2
+  generalize Real.exp (-((4029 / 10 ^ 4 : ℝ) * r) * (K * S)) = x3
+  generalize Real.exp (-((2016 / 10 ^ 4 : ℝ) * r) * (K * S)) = x4
+  have hr' := hr.ne'
+  field_simp
+  ring
+
+/-- the two coefficients agree to better than 1e-13 relative -/
+theorem C07_zbl_d2_kappa : |zblC2code / ((1439942 / 10 ^ 5) * zblKcode ^ 2) - 1| ≤ 1 / 10 ^ 13 := by
+  unfold zblC2code zblKcode
+  rw [abs_le]
+  constructor <;> norm_num
+
+
 /-! ## combinators: the closure bodies of `plus`, `product`, `pow` (atsim/potentials/__init__.py), with the operands and
     their derivatives as arbitrary functions.  Symbols: 0=a 1=b 2=deriv_a 3=deriv_b 4=deriv2_a 5=deriv2_b 6=potential 7=deriv. -/
 
@@ -461,5 +615,119 @@ theorem C07_polynomial_d2 (cs : List ℝ) (i0 : Nat) (r : ℝ) : HasDerivAt (pol
 /-! non-vacuity -/
 example : ev [1000, 3/10, 32] buck_call 1 = 1000 * Real.exp (-1 / (3/10)) - 32 / 1 ^ 6 := by
   simp [ev, evalR, envOf, buck_call]
+
+/-! ## all nestings: arbitrarily nested plus / product / pow / trans expressions
+
+The theorems above hold for ONE application of `plus`, `product`, `pow` with ARBITRARY operand functions.  Here they are lifted by structural
+induction to every expression tree built from leaves that offer true derivatives: `sem` composes the SAME regenerated closure terms (through
+`cv`) exactly as the Python closures compose their operands. -/
+
+/-- potential expressions as the Python API / potable modifiers build them -/
+inductive PE where
+  | leaf (k : Nat)
+  | plus (a b : PE)
+  | product (a b : PE)
+  | pow (a b : PE)
+  | trans (a : PE) (X : ℝ)
+
+/-- what a leaf offers: `f`, `f.deriv`, `f.deriv2` -/
+structure Leaves where
+  f : Nat → ℝ → ℝ
+  f1 : Nat → ℝ → ℝ
+  f2 : Nat → ℝ → ℝ
+
+/-- (value, deriv, deriv2) of an expression, composed with the regenerated closure bodies of `plus`, `product`, `pow`
+    (atsim/potentials/__init__.py) and the `trans` closures (`f(r + X)`, `f.deriv(r + X)`, `f.deriv2(r + X)`; _modifiers.py) -/
+noncomputable def sem (L : Leaves) : PE → (ℝ → ℝ) × (ℝ → ℝ) × (ℝ → ℝ)
+  | .leaf k => (L.f k, L.f1 k, L.f2 k)
+  | .plus a b =>
+    let sa := sem L a
+    let sb := sem L b
+    (cv sa.1 sb.1 sa.2.1 sb.2.1 sa.2.2 sb.2.2 plus_potential plus_deriv plus_potential,
+     cv sa.1 sb.1 sa.2.1 sb.2.1 sa.2.2 sb.2.2 plus_potential plus_deriv plus_deriv,
+     cv sa.1 sb.1 sa.2.1 sb.2.1 sa.2.2 sb.2.2 plus_potential plus_deriv plus_deriv2)
+  | .product a b =>
+    let sa := sem L a
+    let sb := sem L b
+    (cv sa.1 sb.1 sa.2.1 sb.2.1 sa.2.2 sb.2.2 product_potential product_deriv product_potential,
+     cv sa.1 sb.1 sa.2.1 sb.2.1 sa.2.2 sb.2.2 product_potential product_deriv product_deriv,
+     cv sa.1 sb.1 sa.2.1 sb.2.1 sa.2.2 sb.2.2 product_potential product_deriv product_deriv2)
+  | .pow a b =>
+    let sa := sem L a
+    let sb := sem L b
+    (cv sa.1 sb.1 sa.2.1 sb.2.1 sa.2.2 sb.2.2 pow_potential pow_deriv pow_potential,
+     cv sa.1 sb.1 sa.2.1 sb.2.1 sa.2.2 sb.2.2 pow_potential pow_deriv pow_deriv,
+     cv sa.1 sb.1 sa.2.1 sb.2.1 sa.2.2 sb.2.2 pow_potential pow_deriv pow_deriv2)
+  | .trans a X =>
+    let sa := sem L a
+    (fun x => sa.1 (x + X), fun x => sa.2.1 (x + X), fun x => sa.2.2 (x + X))
+
+/-- every base of a `pow` inside the expression is positive everywhere (the domain on which `a ** b` is differentiable) -/
+def PosBases (L : Leaves) : PE → Prop
+  | .leaf _ => True
+  | .plus a b => PosBases L a ∧ PosBases L b
+  | .product a b => PosBases L a ∧ PosBases L b
+  | .pow a b => PosBases L a ∧ PosBases L b ∧ ∀ x, 0 < (sem L a).1 x
+  | .trans a _ => PosBases L a
+
+/-- the leaves' offered derivatives are true derivatives (C07_<form>_d1/_d2 for the built-in forms) -/
+def LeavesOK (L : Leaves) : Prop :=
+  ∀ k x, HasDerivAt (L.f k) (L.f1 k x) x ∧ HasDerivAt (L.f1 k) (L.f2 k x) x
+
+/-- value semantics: the composed value is the pointwise sum / product / power / shift -/
+theorem C07_nested_value (L : Leaves) (a b : PE) (X x : ℝ) :
+    (sem L (.plus a b)).1 x = (sem L a).1 x + (sem L b).1 x ∧
+    (sem L (.product a b)).1 x = (sem L a).1 x * (sem L b).1 x ∧
+    (sem L (.pow a b)).1 x = (sem L a).1 x ^ (sem L b).1 x ∧
+    (sem L (.trans a X)).1 x = (sem L a).1 (x + X) := by
+  refine ⟨?_, ?_, ?_, rfl⟩
+  · simp only [sem]; exact C07_plus_value _ _ _ _ _ _ x
+  · simp only [sem]; exact C07_product_value _ _ _ _ _ _ x
+  · simp only [sem]; exact C07_pow_value _ _ _ _ _ _ x
+
+/-- **all nestings**: for every expression tree over leaves with true derivatives (and positive `pow` bases), at every point the offered
+    `deriv` is the derivative of the value and the offered `deriv2` is the derivative of `deriv` -/
+theorem C07_nested (L : Leaves) (hL : LeavesOK L) (e : PE) (hp : PosBases L e) :
+    ∀ x, HasDerivAt (sem L e).1 ((sem L e).2.1 x) x ∧ HasDerivAt (sem L e).2.1 ((sem L e).2.2 x) x := by
+  induction e with
+  | leaf k => intro x; exact hL k x
+  | plus a b iha ihb =>
+    obtain ⟨hpa, hpb⟩ := hp
+    have ha := iha hpa
+    have hb := ihb hpb
+    intro x
+    simp only [sem]
+    exact ⟨C07_plus_d1 _ _ _ _ _ _ x (ha x).1 (hb x).1, C07_plus_d2 _ _ _ _ _ _ x (ha x).2 (hb x).2⟩
+  | product a b iha ihb =>
+    obtain ⟨hpa, hpb⟩ := hp
+    have ha := iha hpa
+    have hb := ihb hpb
+    intro x
+    simp only [sem]
+    exact ⟨C07_product_d1 _ _ _ _ _ _ x (ha x).1 (hb x).1,
+      C07_product_d2 _ _ _ _ _ _ x (ha x).1 (hb x).1 (ha x).2 (hb x).2⟩
+  | pow a b iha ihb =>
+    obtain ⟨hpa, hpb, hpos⟩ := hp
+    have ha := iha hpa
+    have hb := ihb hpb
+    intro x
+    simp only [sem]
+    exact ⟨C07_pow_d1 _ _ _ _ _ _ x (hpos x) (ha x).1 (hb x).1,
+      C07_pow_d2 _ _ _ _ _ _ x hpos (fun y => (ha y).1) (fun y => (hb y).1) (ha x).2 (hb x).2⟩
+  | trans a X iha =>
+    have ha := iha hp
+    intro x
+    simp only [sem]
+    exact ⟨C07_trans _ _ X x (ha (x + X)).1, C07_trans _ _ X x (ha (x + X)).2⟩
+
+/-- non-vacuity: a three-level expression over concrete leaves meets the hypotheses -/
+example : ∃ L : Leaves, LeavesOK L ∧
+    PosBases L (.plus (.product (.leaf 0) (.trans (.leaf 1) 2)) (.pow (.leaf 2) (.leaf 0))) := by
+  refine ⟨⟨fun _ x => Real.exp x, fun _ x => Real.exp x, fun _ x => Real.exp x⟩, ?_, ?_⟩
+  · intro k x
+    exact ⟨Real.hasDerivAt_exp x, Real.hasDerivAt_exp x⟩
+  · simp only [PosBases, sem, and_true, true_and]
+    intro x
+    exact Real.exp_pos x
 
 end Atsim.C07
